@@ -160,7 +160,7 @@ def check_net(net, friction_model):
                     if re > 10. and s["n"] == 1 and abs(colebrook_residual(lam, re, s["k"], s["d"])) > 2e-2:
                         bad.append(("colebrook: reported lambda does not satisfy the implicit equation", s,
                                     colebrook_residual(lam, re, s["k"], s["d"]), 0.))
-                acc = means.setdefault((tbl, s["idx"]), {"s": s, "lam": [], "re": [], "isothermal": True})
+                acc = means.setdefault((tbl, s["idx"]), {"s": s, "lam": [], "re": [], "dpf": [], "isothermal": True})
                 acc["lam"].append(lam)
                 acc["re"].append(re)
                 acc["isothermal"] &= s["t_i"] == s["t_i1"]
@@ -170,6 +170,7 @@ def check_net(net, friction_model):
                     v = m / (rho * a)
                     lhs = (s["p_i1"] - s["p_i"]) * 1e5
                     rhs = rho * G * s["dh"] - fric * rho * v * abs(v) / 2
+                    means[(tbl, s["idx"])]["dpf"].append(fric * rho * v * v / 2 / 1e5)
                     if not close(lhs, rhs, at=1e-2, rt=1e-3 if own_cb else RT):            # 1e-2 Pa = 1e-7 bar
                         bad.append(("liquid pressure-loss law (Darcy-Weisbach + hydrostatic + zeta)", s, lhs, rhs))
                     if s["n"] == 1 and not math.isnan(s["v_rep"]) and not close(s["v_rep"] * rho * a, m, rt=1e-9, at=1e-12):
@@ -181,6 +182,7 @@ def check_net(net, friction_model):
                     rho_r = _real_rho(fluid, rho_n, s["p_i"], s["p_i1"], s["t_i"], s["t_i1"])
                     lhs = (s["p_i"] - s["p_i1"]) * 1e5 * psum
                     rhs = fric * rho_n * v_n * abs(v_n) / 2 * (PN * 1e5) * t / TN * comp - rho_r * G * s["dh"] * psum
+                    means[(tbl, s["idx"])]["dpf"].append(fric * rho_n * v_n * v_n / 2 * (PN * 1e5) * t / TN * comp / psum / 1e5)
                     if not close(lhs, rhs, at=1e-2 * psum, rt=1e-3 if own_cb else RT):
                         bad.append(("gas pressure-loss law (integrated real-gas form)", s, lhs, rhs))
     for (tbl, idx), acc in means.items():
@@ -193,6 +195,13 @@ def check_net(net, friction_model):
         if re_m > 1. and friction_model != "colebrook" and not close(s["lambda_rep"], lam_m, rt=1e-5, at=0.):
             bad.append(("reported lambda != documented friction formula (%s), mean over sections" % friction_model, s,
                         s["lambda_rep"], lam_m))
+    for (tbl, idx), acc in means.items():
+        # reported friction loss of an element = sum over its sections (/repo 08a8961), absolute value
+        if tbl == "pipe" and friction_model != "colebrook" and "dp_friction_loss_bar" in net.res_pipe:
+            rep = float(net.res_pipe.at[idx, "dp_friction_loss_bar"])
+            if not math.isnan(rep) and not close(abs(rep), sum(acc["dpf"]), rt=1e-5, at=1e-9):
+                bad.append(("reported friction loss: dp_friction_loss_bar != sum over sections of (lambda l/d + zeta) rho v^2/2",
+                            acc["s"], abs(rep), sum(acc["dpf"])))
     if gas and "pipe" in net and len(net.pipe):
         bad += check_gas_ends(net, fluid, rho_n)
     return n_chk, n_flow, bad
